@@ -9,6 +9,7 @@ import Driver.LineIO
 import Driver.TrackerIO
 import Driver.ClientIO
 import Driver.SpecIO
+import Driver.HSetIO
 /-!
 # Line-protocol oracle: one request per line on stdin, one reply per line on stdout.
 
@@ -158,11 +159,13 @@ structure DState where
   tk : Option TkState := none
   cl : Option Go.Client.Client := none
   ns : Option NsState := none
+  hs : HsState := {}
 
 def handleSt (st : DState) (words : List String) : DState × String :=
   match words with
   | "tk" :: ws => let (t, r) := tkHandle st.tk ws; ({ st with tk := t }, r)
   | "cl" :: ws => let (c, r) := clHandle st.cl ws; ({ st with cl := c }, r)
+  | "hs" :: ws => let (h, r) := hsHandle st.hs ws; ({ st with hs := h }, r)
   | "ns" :: ws => let (n, r) := nsHandle st.ns ws; ({ st with ns := n }, r)
   | _ => match specHandle words with
     | some r => (st, r)
